@@ -62,6 +62,8 @@ def run(ctx):
     run_cases(ctx, cases, "c06")
     evaluate(ctx, cases, CLASSES, {"string": "invalid", "string-valid": "valid", "optional-absent": "by-spec", "null-allowed": "valid", "valid": "valid"},
              "string constraints")
+    from vlib.valuecheck import replay_findings
+    replay_findings(ctx)
     ctx.cov["rule"] = ("systematic: all 7 presence combinations of minLength/maxLength/pattern x 7 positions (required, optional, nullable, nullable required, "
                        "named definition required/optional, array item by reference); random: string-focused in-guard schemas; per schema 2-4 valid documents, "
                        "each with its single-fault mutants (strings of length min-1, min, max, max+1, matching and non-matching, absent, null); "
